@@ -445,7 +445,9 @@ def _default(ex, k, p, st):
 def havoc(st, k):
     for f in k.modifies:
         if f == 'trace': st.havoc_trace()
-        elif f.startswith('ghost:'): st.ghost[f[6:]] = None
+        elif f.startswith('ghost:'):
+            cur = st.ghost.get(f[6:])
+            st.ghost[f[6:]] = fresh('ghost_' + f[6:], cur.sort()) if is_expr(cur) else None
         else: st.havoc_field(f)
 
 
